@@ -5,3 +5,13 @@ HARNESSES = {
     'SetPathData': dict(split={'verb': 18, 'form': 4}, quick=dict(params={'digits': 2}), thorough=dict(params={'digits': 4})),
     'ParsePathData': dict(split={'verb': 14, 'form': 3}, quick=dict(params={'digits': 4}), thorough=dict(params={'digits': 12})),
 }
+
+BOUNDS = {
+    'NormalizeGen/NormalizeMD': 'bit exact: every verb letter and operand count, arbitrary float32 operands and transform parameters',
+    'Concat': 'exact-real reading, arbitrary matrices',
+    'SetPathData': '"M n n <verb> n.. [n.. implicit repeat] z" for each of the 18 verb letters, 4 number forms (d, -d, d.d, .d), the first `digits` digits arbitrary (quick 2, thorough 4)',
+    'ParsePathData': '"M n n <verb> n.. [n.. repeat] [zM n n] z" for 14 verbs, 3 number forms, the first `digits` digits arbitrary (quick 4, thorough 12), symbolic outSize and x offset',
+    'ParsePath': 'three paths with opacities 0.5, 0.25, 0.5 and one circle with symbolic position/radius',
+}
+OUTSIDE = 'that decimal text denotes the float it is parsed to (strconv.ParseFloat / fmt.Fscanf are uninterpreted functions of the token bytes); XML; skeletons other than the enumerated ones; multi-digit exponents, whitespace variants'
+EXPLANATION = 'partial: dispatch and transforms fully, text handling by skeleton'
